@@ -289,6 +289,9 @@ class MD3(DriftDetector):
 
         self.drift_state = None
 
+        # the classifier addresses features by position: keep the reference's column order
+        labeled_sample = labeled_sample[reference_columns]
+
         if self.oracle_data is None:
             # a private copy: the caller may reuse or overwrite its frame
             self.oracle_data = labeled_sample.copy()
